@@ -145,9 +145,15 @@ class TCPTransport(KNXIPTransport):
         """Connect TCP socket."""
         # a cut-off frame of an earlier connection is not part of this stream
         self._buffer = b""
+
+        def connection_lost() -> None:
+            """Handle the loss of this connection - not of an earlier one reported late."""
+            if tcp_transport_factory.transport is self.transport:
+                self._connection_lost()
+
         tcp_transport_factory = TCPTransport.TCPTransportFactory(
             data_received_callback=self.data_received_callback,
-            connection_lost_callback=self._connection_lost,
+            connection_lost_callback=connection_lost,
         )
         loop = asyncio.get_running_loop()
         stop_count = self._stop_count
